@@ -12,7 +12,8 @@ require github.com/arloliu/go-secs/v2 v2.0.0
 replace github.com/arloliu/go-secs/v2 => $repo
 EOM
 cp $repo/go.sum $d/
-(cd $d && GOFLAGS=-mod=mod GOPROXY=off go test -count=1 ./... 2>&1 | tail -${3:-8})
-rc=${PIPESTATUS[0]}
+(cd $d && GOFLAGS=-mod=mod GOPROXY=off go test -count=1 ./... > $d/out.txt 2>&1)
+rc=$?
+tail -${3:-8} $d/out.txt
 rm -rf $d
 exit $rc
